@@ -80,11 +80,15 @@ PAIR_POOL = [
     "opts = {}\nprint(sorted(**opts))\n",
     "from dataclasses import dataclass\nwhat = dataclass()\n",
     "items = [3, 1]\nprint(sorted(items), list(reversed(items)), list(filter(None, items)))\n",
+    "word = 'abc'\nword.foo = 1\nprint(word)\n",
+    "word = 'abc'\nprint(word.foo + 1)\n",
+    "count = 5\ncount.label = 'five'\nnums = [1]\nnums.size = 1\n",
+    "count = 5\nprint(count.label + '!')\nnums = [1]\nprint(nums.size + 1)\n",
 ]
 
 
 HISTORY_OTHERS = ['other_unused_name = 1\n', 'opts = {}\nprint(sorted(**opts))\n', 'from dataclasses import dataclass\nwhat = dataclass()\n',
-                  'def f(a):\n    return f(a)\nf(1)\n', 'print(reversed(**{}))\nprint(filter())\n', 'x = (1\n']
+                  'def f(a):\n    return f(a)\nf(1)\n', "word = 'abc'\nword.foo = 1\n", 'print(reversed(**{}))\nprint(filter())\n', 'x = (1\n']
 
 
 def judge_pair(case):
